@@ -77,7 +77,31 @@ def _native_run(lem, kwargs):
             setattr(owner, attr, orig)
 
 
+class _NativeTimeout(BaseException):
+    pass
+
+
+NATIVE_TIMEOUT_S = 2.0
+
+
 def _native_run_inner(lem, kwargs):
+    import signal
+
+    def _alarm(signum, frame):
+        raise _NativeTimeout()
+
+    old = signal.signal(signal.SIGALRM, _alarm)
+    signal.setitimer(signal.ITIMER_REAL, NATIVE_TIMEOUT_S)
+    try:
+        return _native_run_inner2(lem, kwargs)
+    except _NativeTimeout:
+        return ("hang", f"no result within {NATIVE_TIMEOUT_S} s (does not terminate?)")
+    finally:
+        signal.setitimer(signal.ITIMER_REAL, 0)
+        signal.signal(signal.SIGALRM, old)
+
+
+def _native_run_inner2(lem, kwargs):
     try:
         lem.fn(**kwargs)
         return ("return", None)
@@ -89,6 +113,8 @@ def _native_run_inner(lem, kwargs):
         if own and len(tb) and tb[-1].filename == own[-1].filename:
             return ("assert", f"line {own[-1].lineno}: {own[-1].line}")
         return ("raise", f"AssertionError: {e}")
+    except _NativeTimeout:
+        raise
     except BaseException as e:  # noqa: BLE001
         return ("raise", f"{type(e).__name__}: {e}")
 
@@ -189,10 +215,14 @@ def run_instance(job):
                     return
                 site = f"{os.path.basename(frame.filename)}:{s.lineno}"
                 zb = I_.as_z3_bool(v)
+                prove("assert", site, zb)
+
+            def prove(kind, site, zb):
+                """Obligation: the path condition entails zb. Records the verdict; continues assuming zb."""
                 t1 = time.time()
                 if isinstance(zb, bool):
                     if zb:
-                        record("assert", site, "discharged", 0.0, "by evaluation")
+                        record(kind, site, "discharged", 0.0, "by evaluation")
                         return
                     r = path.check(timeout_ms=cfgt["goal_timeout_ms"])
                     neg = None
@@ -201,7 +231,7 @@ def run_instance(job):
                     r = path.check(neg, timeout_ms=cfgt["goal_timeout_ms"])
                 dt = time.time() - t1
                 if r == z3.unsat:
-                    record("assert", site, "discharged" if neg is not None else "unreachable", dt, "z3")
+                    record(kind, site, "discharged" if neg is not None else "unreachable", dt, "z3")
                     if neg is not None:
                         path.assume(zb)
                     else:
@@ -211,17 +241,18 @@ def run_instance(job):
                     # model of pc & !goal
                     cargs = concretize()
                     native = _native_run(lem, cargs)
-                    record("assert", site, "refuted", dt, "z3 sat", {k: _safe_repr(x) for k, x in cargs.items()}, native)
+                    record(kind, site, "refuted", dt, "z3 sat", {k: _safe_repr(x) for k, x in cargs.items()}, native)
                     vcs[-1]["_pickle"] = _pickle_args(cargs)
                     if neg is None:
                         raise PathAbort()
                     path.assume(zb)
                     return
-                record("assert", site, "undecided", dt, f"z3 {path.solver.reason_unknown()}")
+                record(kind, site, "undecided", dt, f"z3 {path.solver.reason_unknown()}")
                 if neg is not None:
                     path.assume(zb)
 
             I.cfg["assert_hook"] = assert_hook
+            I.cfg["prove"] = prove
             outcome = None
             try:
                 I.call_function(lem.fn, [], args)
@@ -380,7 +411,7 @@ def summarize(prop, tier, results, wall, findings, mutations, quiet=False):
                 continue
             seen.add(key)
             fn = os.path.join(VERIF, "replays", prop, _slug(f"{r['lemma']}-{r['instance']}-{v['site']}") + ".json")
-            confirmed = v["native"] is not None and v["native"][0] in ("assert", "raise")
+            confirmed = v["native"] is not None and v["native"][0] in ("assert", "raise", "hang")
             with open(fn, "w") as fh:
                 json.dump(
                     {
